@@ -2152,6 +2152,71 @@ fn is_client_cert(c: u8) -> bool { c >= 2 }
 
 /// one call of a tonic client against tonic's TLS server, both from arbitrary configurations;
 /// the oracle is computed from the pieces the configurations were assembled from
+/// the property on one call of a client configured as `cli` to a tonic server configured as `srv`
+/// (both as assembled by the harness: ground truth by construction), read off the observation
+fn judge_pair(pki: &Pki, cli: &CliCfg, srv: &SrvCfg, uri: &str, o: &CallObs) -> Option<String> {
+    let mut oracle = None;
+    // the server must not exist with a client CA blob that holds no certificate
+    if let Some(b) = &srv.client_ca {
+        if b.cas().is_empty() {
+            oracle = Some("a server was built with a client CA blob that contains no certificate (nobody could be verified against it)".to_string());
+        }
+    }
+    let ran = !o.seen.is_empty();
+    let https = uri.starts_with("https");
+    if ran && https {
+        let presented = cli.ident.as_ref().and_then(|i| i.leaf());
+        let srv_leaf = srv.ident.as_ref().and_then(|i| i.leaf());
+        // server authentication: its certificate must chain to a configured root and match the name
+        let effective = cli.domain.unwrap_or(if uri.ends_with("other.test") { "other.test" } else { "example.test" });
+        match srv_leaf {
+            Some(c) if c <= 1 => {
+                if !cli.trusts(1) {
+                    oracle = Some("a handler ran although CA1 (issuer of the server certificate) is in no configured CA blob / trust anchor".into());
+                }
+                if (c == 0) != (effective == "example.test") {
+                    oracle = Some("a handler ran although the server certificate does not match the configured/URI domain".into());
+                }
+            }
+            _ => oracle = Some("a handler ran although the server's identity is no server certificate".into()),
+        }
+        // client authentication against the CAs of the blob
+        if let Some(b) = &srv.client_ca {
+            match presented {
+                Some(c) => {
+                    if !(is_client_cert(c) && b.cas().contains(&issuer_of(c))) {
+                        oracle = Some(format!("a handler ran for a client presenting {} although its issuer is not among the CAs of the server's client CA blob {:?}", CERT_NAMES[c as usize], b.cas()));
+                    }
+                    let want = cli.ident.as_ref().unwrap().sent_chain(pki);
+                    if o.seen[0].request_peer_certs.as_ref() != Some(&want) {
+                        oracle = Some("the handler does not see the certificate chain the client presented".into());
+                    }
+                }
+                None => {
+                    if !srv.optional {
+                        oracle = Some("a handler ran for a client without a usable identity although client authentication is required".into());
+                    }
+                    if o.seen[0].request_peer_certs.is_some() {
+                        oracle = Some("peer certificates exposed although the client presented none".into());
+                    }
+                }
+            }
+        } else if o.seen[0].request_peer_certs.is_some() {
+            oracle = Some("peer certificates exposed although the server requests none".into());
+        }
+    }
+    if https && (contains_preface(&o.wire) || !matches!(wire_class(&o.wire), 0 | 1)) {
+        oracle = Some("bytes other than TLS records on the raw pipe of an https endpoint".into());
+    }
+    if o.rpc_ok != ran || o.seen.len() > 1 {
+        oracle = Some(format!("rpc_ok={} but handler runs={}", o.rpc_ok, o.seen.len()));
+    }
+    if o.class == Class::Unclassified || o.class == Class::Hang {
+        oracle = Some(format!("unrecognised failure / hang: {}", o.err_text));
+    }
+    oracle
+}
+
 fn run_cfg_pair(out: &mut Out, pki: &Pki, kind: &str, cli: &CliCfg, srv: &SrvCfg, uri: &str) {
     let host_coq = if uri.ends_with("other.test") { "DOther" } else { "DExample" };
     let coarse = cli.faults() > 1 || srv.faults() > 1;
@@ -2170,65 +2235,7 @@ fn run_cfg_pair(out: &mut Out, pki: &Pki, kind: &str, cli: &CliCfg, srv: &SrvCfg
         Ok(()) => {
             let o = run_call(cli.spec(pki, uri), ServerSpec::Cfg(srv.build(pki)), TcpPipe);
             input["observed"] = json!({"class": format!("{:?}", o.class), "cfg_err": o.cfg_err, "connect_ok": o.connect_ok, "handler_runs": o.seen.len(), "error": o.err_text.chars().take(300).collect::<String>()});
-            let mut oracle = None;
-            // the server must not exist with a client CA blob that holds no certificate
-            if let Some(b) = &srv.client_ca {
-                if b.cas().is_empty() {
-                    oracle = Some("a server was built with a client CA blob that contains no certificate (nobody could be verified against it)".to_string());
-                }
-            }
-            let ran = !o.seen.is_empty();
-            let https = uri.starts_with("https");
-            if ran && https {
-                let presented = cli.ident.as_ref().and_then(|i| i.leaf());
-                let srv_leaf = srv.ident.as_ref().and_then(|i| i.leaf());
-                // server authentication: its certificate must chain to a configured root and match the name
-                let effective = cli.domain.unwrap_or(if uri.ends_with("other.test") { "other.test" } else { "example.test" });
-                match srv_leaf {
-                    Some(c) if c <= 1 => {
-                        if !cli.trusts(1) {
-                            oracle = Some("a handler ran although CA1 (issuer of the server certificate) is in no configured CA blob / trust anchor".into());
-                        }
-                        if (c == 0) != (effective == "example.test") {
-                            oracle = Some("a handler ran although the server certificate does not match the configured/URI domain".into());
-                        }
-                    }
-                    _ => oracle = Some("a handler ran although the server's identity is no server certificate".into()),
-                }
-                // client authentication against the CAs of the blob
-                if let Some(b) = &srv.client_ca {
-                    match presented {
-                        Some(c) => {
-                            if !(is_client_cert(c) && b.cas().contains(&issuer_of(c))) {
-                                oracle = Some(format!("a handler ran for a client presenting {} although its issuer is not among the CAs of the server's client CA blob {:?}", CERT_NAMES[c as usize], b.cas()));
-                            }
-                            let want = cli.ident.as_ref().unwrap().sent_chain(pki);
-                            if o.seen[0].request_peer_certs.as_ref() != Some(&want) {
-                                oracle = Some("the handler does not see the certificate chain the client presented".into());
-                            }
-                        }
-                        None => {
-                            if !srv.optional {
-                                oracle = Some("a handler ran for a client without a usable identity although client authentication is required".into());
-                            }
-                            if o.seen[0].request_peer_certs.is_some() {
-                                oracle = Some("peer certificates exposed although the client presented none".into());
-                            }
-                        }
-                    }
-                } else if o.seen[0].request_peer_certs.is_some() {
-                    oracle = Some("peer certificates exposed although the server requests none".into());
-                }
-            }
-            if https && (contains_preface(&o.wire) || !matches!(wire_class(&o.wire), 0 | 1)) {
-                oracle = Some("bytes other than TLS records on the raw pipe of an https endpoint".into());
-            }
-            if o.rpc_ok != ran || o.seen.len() > 1 {
-                oracle = Some(format!("rpc_ok={} but handler runs={}", o.rpc_ok, o.seen.len()));
-            }
-            if o.class == Class::Unclassified || o.class == Class::Hang {
-                oracle = Some(format!("unrecognised failure / hang: {}", o.err_text));
-            }
+            let mut oracle = judge_pair(pki, cli, srv, uri, &o);
             oracle = oracle.or(conn_info_oracle(&o));
             out.hist(&format!("{}.class", kind), match o.cfg_err { Some(e) => format!("cfg_err {}", e), None => format!("{:?}", o.class) });
             (call_tr(pki, &o), oracle)
@@ -2523,6 +2530,520 @@ fn corpus_config_chains(out: &mut Out, pki: &Pki) {
 }
 fn client_native_install() {
     Native::Ca1.install();
+}
+
+// ================================================================== configurations derived from values already in use
+/// A process that builds configuration VALUES step by step - clones them, derives new ones from
+/// values that were already used for a running server / a connected endpoint, uses one value
+/// for several servers - with calls in between.  Every step is executed on the real tonic values
+/// and, independently, on plain specification structs (value semantics by construction); the
+/// oracle judges every call against the specification of the server / endpoint it goes to.
+#[derive(Clone, Debug)]
+enum SSet { Ident(IdSpec), ClientCa(Blob), Optional(bool) }
+#[derive(Clone)]
+enum SStep {
+    New(usize),
+    Set { dst: usize, src: usize, op: SSet, clone: bool },
+    /// Server::builder().tls_config(value) and serve: the next server
+    Build { src: usize, clone: bool },
+    /// a client calls server `srv` (https://example.test)
+    Call { srv: usize, cli: CliCfg },
+}
+fn b2(b: bool) -> &'static str { coq_bool(b) }
+impl SStep {
+    fn coq(&self) -> String {
+        match self {
+            SStep::New(d) => format!("ShVal (VNew {})", d),
+            SStep::Set { dst, src, op, clone } => format!(
+                "ShVal (VSet {} {} {} {})", dst, src,
+                match op { SSet::Ident(i) => format!("(SetIdentity {})", i.coq()), SSet::ClientCa(b) => format!("(SetClientCa {})", b.coq()), SSet::Optional(x) => format!("(SetOptional {})", b2(*x)) },
+                b2(*clone)),
+            SStep::Build { src, clone } => format!("ShVal (VUse {} {})", src, b2(*clone)),
+            SStep::Call { srv, cli } => format!("ShCall {} Https (Some DExample) (Some {})", srv, cli.coq()),
+        }
+    }
+    fn text(&self) -> String {
+        match self {
+            SStep::New(d) => format!("let v{} = ServerTlsConfig::new()", d),
+            SStep::Set { dst, src, op, clone } => format!("let v{} = v{}{}.{}", dst, src, if *clone { ".clone()" } else { "" },
+                match op { SSet::Ident(i) => format!("identity({:?})", i.chain), SSet::ClientCa(b) => format!("client_ca_root({:?})", b.0), SSet::Optional(x) => format!("client_auth_optional({})", x) }),
+            SStep::Build { src, clone } => format!("next server = Server::builder().tls_config(v{}{}) + serve", src, if *clone { ".clone()" } else { "" }),
+            SStep::Call { srv, cli } => format!("client(identity {:?}) calls server {}", cli.ident.as_ref().map(|i| i.chain.clone()), srv),
+        }
+    }
+}
+const SLOTS: usize = 6;
+
+fn run_srv_history(out: &mut Out, pki: &Pki, kind: &str, steps: &[SStep]) {
+    Native::Ca1.install();
+    let rt = tokio::runtime::Builder::new_current_thread().enable_time().build().unwrap();
+    let (obs, oracle, observed) = rt.block_on(async {
+        let mut real: Vec<Option<ServerTlsConfig>> = (0..SLOTS).map(|_| None).collect();
+        let mut spec: Vec<Option<SrvCfg>> = (0..SLOTS).map(|_| None).collect();
+        // per server: Ok((pipe sender, what its handlers saw)) or Err(the observable of a failed build), and its specification
+        let mut servers: Vec<(Result<(mpsc::UnboundedSender<TcpPipe>, Arc<Shared>), Tr>, SrvCfg)> = vec![];
+        let mut obs = vec![];
+        let mut observed = vec![];
+        let mut oracle: Option<String> = None;
+        for (i, st) in steps.iter().enumerate() {
+            match st {
+                SStep::New(d) => {
+                    real[*d] = Some(ServerTlsConfig::new());
+                    spec[*d] = Some(SrvCfg { ident: None, client_ca: None, optional: false, order: 0 });
+                }
+                SStep::Set { dst, src, op, clone } => {
+                    let (v, sp) = if *clone { (real[*src].clone(), spec[*src].clone()) } else { (real[*src].take(), spec[*src].take()) };
+                    let (v, mut sp) = (v.expect("ill-formed history"), sp.expect("ill-formed history"));
+                    let v = match op {
+                        SSet::Ident(id) => { sp.ident = Some(id.clone()); v.identity(id.identity(pki)) }
+                        SSet::ClientCa(b) => { sp.client_ca = Some(b.clone()); v.client_ca_root(Certificate::from_pem(b.pem(pki))) }
+                        SSet::Optional(x) => { sp.optional = *x; v.client_auth_optional(*x) }
+                    };
+                    real[*dst] = Some(v);
+                    spec[*dst] = Some(sp);
+                }
+                SStep::Build { src, clone } => {
+                    let (v, sp) = if *clone { (real[*src].clone(), spec[*src].clone()) } else { (real[*src].take(), spec[*src].take()) };
+                    let (v, sp) = (v.expect("ill-formed history"), sp.expect("ill-formed history"));
+                    let built = catch(std::panic::AssertUnwindSafe(move || Server::builder().tls_config(v).map_err(|e| {
+                        let mut t = String::new();
+                        classify_err(&e, &mut vec![], &mut t);
+                        t.push_str(&format!("{:?}", e));
+                        t
+                    })));
+                    match built {
+                        Ok(Ok(mut b)) => {
+                            let (tx, rx) = mpsc::unbounded_channel::<TcpPipe>();
+                            let sh = Arc::new(Shared::default());
+                            let svc = Svc(sh.clone());
+                            tokio::spawn(async move {
+                                let _ = b.add_service(svc).serve_with_incoming(UnboundedReceiverStream::new(rx).map(Ok::<_, io::Error>)).await;
+                            });
+                            // let it start
+                            tokio::task::yield_now().await;
+                            servers.push((Ok((tx, sh)), sp));
+                        }
+                        Ok(Err(t)) => servers.push((Err(Tr::tag(102, vec![Tr::n(cfg_err_code(&t))])), sp)),
+                        Err(_) => {
+                            if sp.ident.is_some() {
+                                oracle = Some(format!("step {}: Server::tls_config panicked although this value has an identity", i));
+                            }
+                            servers.push((Err(Tr::tag(101, vec![])), sp));
+                        }
+                    }
+                }
+                SStep::Call { srv, cli } => {
+                    let uri = "https://example.test";
+                    let (target, sp) = &servers[*srv];
+                    match target {
+                        Err(t) => {
+                            obs.push(t.clone());
+                            observed.push(format!("step {}: server {} was not built", i, srv));
+                        }
+                        Ok((tx, sh)) => {
+                            let o = match build_endpoint(&cli.spec(pki, uri)) {
+                                Ok(ep) => call_on_tagged(ep, tx.clone(), TcpPipe, false, sh.clone(), 10 + i as u8).await,
+                                Err((code, t)) => CallObs { cfg_err: Some(code), class: Class::Refused, connect_ok: false, rpc_ok: false, seen: vec![], wire: vec![], attempts: 0, err_text: t },
+                            };
+                            if let (None, Some(why)) = (&oracle, judge_pair(pki, cli, sp, uri, &o).or(conn_info_oracle(&o))) {
+                                oracle = Some(format!(
+                                    "step {} ({}): server {} was built from a value whose own setter calls say {{identity {:?}, client CA {:?}, optional {}}}, yet: {}",
+                                    i, st.text(), srv, sp.ident.as_ref().map(|x| x.chain.clone()), sp.client_ca.as_ref().map(|b| b.cas()), sp.optional, why));
+                            }
+                            observed.push(format!("step {}: {:?}, handler runs {}", i, o.class, o.seen.len()));
+                            obs.push(call_tr(pki, &o));
+                        }
+                    }
+                }
+            }
+        }
+        (Tr::L(obs), oracle, observed)
+    });
+    drop(rt);
+    out.hist(&format!("{}.steps", kind), steps.len());
+    out.push(Case {
+        kind: kind.into(),
+        input: json!({"process": steps.iter().map(|x| x.text()).collect::<Vec<_>>(), "observed": observed}),
+        model: format!("obs_srv_history [CA1] [{}]", steps.iter().map(|x| x.coq()).collect::<Vec<_>>().join("; ")),
+        impl_obs: obs,
+        oracle,
+        nontrivial: true,
+    });
+}
+
+#[derive(Clone, Debug)]
+enum CSetOp { Ca(Blob), Domain(&'static str), Ident(IdSpec) }
+#[derive(Clone)]
+enum CStep {
+    New(usize),
+    Set { dst: usize, src: usize, op: CSetOp, clone: bool },
+    /// Endpoint::from_shared("https://example.test").tls_config(value): the next endpoint
+    Endpoint { src: usize, clone: bool },
+    /// a call through endpoint `ep` to fixed server `srv` (0: SrvExample, no client auth; 1: SrvExample, CA2 required; 2: SrvOther, no client auth)
+    Call { ep: usize, srv: usize },
+}
+const FIXED_SRV_COQ: [&str; 3] = ["(mk_srv SrvExample None false)", "(mk_srv SrvExample (Some CA2) false)", "(mk_srv SrvOther None false)"];
+fn fixed_srv(k: usize) -> SrvCfg {
+    match k {
+        0 => SrvCfg { ident: Some(IdSpec::good(0)), client_ca: None, optional: false, order: 0 },
+        1 => SrvCfg { ident: Some(IdSpec::good(0)), client_ca: Some(Blob(vec![Sec::Ca2])), optional: false, order: 0 },
+        _ => SrvCfg { ident: Some(IdSpec::good(1)), client_ca: None, optional: false, order: 0 },
+    }
+}
+impl CStep {
+    fn coq(&self) -> String {
+        match self {
+            CStep::New(d) => format!("ChVal (VNew {})", d),
+            CStep::Set { dst, src, op, clone } => format!(
+                "ChVal (VSet {} {} {} {})", dst, src,
+                match op { CSetOp::Ca(b) => format!("(CSetCa {})", b.coq()), CSetOp::Domain(d) => format!("(CSetDomain {})", dom_coq(d)), CSetOp::Ident(i) => format!("(CSetIdentity {})", i.coq()) },
+                b2(*clone)),
+            CStep::Endpoint { src, clone } => format!("ChVal (VUse {} {})", src, b2(*clone)),
+            CStep::Call { ep, srv } => format!("ChCall {} {}", ep, FIXED_SRV_COQ[*srv]),
+        }
+    }
+    fn text(&self) -> String {
+        match self {
+            CStep::New(d) => format!("let c{} = ClientTlsConfig::new()", d),
+            CStep::Set { dst, src, op, clone } => format!("let c{} = c{}{}.{}", dst, src, if *clone { ".clone()" } else { "" },
+                match op { CSetOp::Ca(b) => format!("ca_certificate({:?})", b.0), CSetOp::Domain(d) => format!("domain_name({:?})", d), CSetOp::Ident(i) => format!("identity({:?})", i.chain) }),
+            CStep::Endpoint { src, clone } => format!("next endpoint = Endpoint(https://example.test).tls_config(c{}{})", src, if *clone { ".clone()" } else { "" }),
+            CStep::Call { ep, srv } => format!("call through endpoint {} to fixed server {}", ep, srv),
+        }
+    }
+}
+
+fn run_cli_history(out: &mut Out, pki: &Pki, kind: &str, steps: &[CStep]) {
+    Native::Ca1.install();
+    let uri = "https://example.test";
+    let rt = tokio::runtime::Builder::new_current_thread().enable_time().build().unwrap();
+    let (obs, oracle, observed) = rt.block_on(async {
+        let mut srv_ch = vec![];
+        for k in 0..3 {
+            let (tx, rx) = mpsc::unbounded_channel::<TcpPipe>();
+            let sh = Arc::new(Shared::default());
+            spawn_server(ServerSpec::Cfg(fixed_srv(k).build(pki)), rx, Svc(sh.clone()));
+            srv_ch.push((tx, sh));
+        }
+        let mut real: Vec<Option<ClientTlsConfig>> = (0..SLOTS).map(|_| None).collect();
+        let mut spec: Vec<Option<CliCfg>> = (0..SLOTS).map(|_| None).collect();
+        let mut eps: Vec<(Result<Endpoint, (u32, String)>, CliCfg)> = vec![];
+        let mut obs = vec![];
+        let mut observed = vec![];
+        let mut oracle: Option<String> = None;
+        for (i, st) in steps.iter().enumerate() {
+            match st {
+                CStep::New(d) => {
+                    real[*d] = Some(ClientTlsConfig::new());
+                    spec[*d] = Some(CliCfg { blobs: vec![], anchor_ca1: false, ident: None, domain: None, order: 0 });
+                }
+                CStep::Set { dst, src, op, clone } => {
+                    let (v, sp) = if *clone { (real[*src].clone(), spec[*src].clone()) } else { (real[*src].take(), spec[*src].take()) };
+                    let (v, mut sp) = (v.expect("ill-formed history"), sp.expect("ill-formed history"));
+                    let v = match op {
+                        CSetOp::Ca(b) => { sp.blobs.push(b.clone()); v.ca_certificate(Certificate::from_pem(b.pem(pki))) }
+                        CSetOp::Domain(d) => { sp.domain = Some(*d); v.domain_name(*d) }
+                        CSetOp::Ident(id) => { sp.ident = Some(id.clone()); v.identity(id.identity(pki)) }
+                    };
+                    real[*dst] = Some(v);
+                    spec[*dst] = Some(sp);
+                }
+                CStep::Endpoint { src, clone } => {
+                    let (v, sp) = if *clone { (real[*src].clone(), spec[*src].clone()) } else { (real[*src].take(), spec[*src].take()) };
+                    let (v, sp) = (v.expect("ill-formed history"), sp.expect("ill-formed history"));
+                    let ep = Endpoint::from_shared(uri.to_string()).unwrap().tls_config(v).map_err(|e| {
+                        let mut t = String::new();
+                        classify_err(&e, &mut vec![], &mut t);
+                        t.push_str(&format!("{:?}", e));
+                        (cfg_err_code(&t), t)
+                    });
+                    eps.push((ep, sp));
+                }
+                CStep::Call { ep, srv } => {
+                    let (e, sp) = &eps[*ep];
+                    let (tx, sh) = &srv_ch[*srv];
+                    let o = match e {
+                        Ok(e) => call_on_tagged(e.clone(), tx.clone(), TcpPipe, false, sh.clone(), 10 + i as u8).await,
+                        Err((code, t)) => CallObs { cfg_err: Some(*code), class: Class::Refused, connect_ok: false, rpc_ok: false, seen: vec![], wire: vec![], attempts: 0, err_text: t.clone() },
+                    };
+                    if let (None, Some(why)) = (&oracle, judge_pair(pki, sp, &fixed_srv(*srv), uri, &o).or(conn_info_oracle(&o))) {
+                        oracle = Some(format!(
+                            "step {} ({}): endpoint {} was configured with a value whose own setter calls say {{CA blobs {:?}, domain {:?}, identity {:?}}}, yet: {}",
+                            i, st.text(), ep, sp.blobs.iter().map(|b| b.cas()).collect::<Vec<_>>(), sp.domain, sp.ident.as_ref().map(|x| x.chain.clone()), why));
+                    }
+                    observed.push(format!("step {}: {:?}, handler runs {}", i, o.class, o.seen.len()));
+                    obs.push(call_tr(pki, &o));
+                }
+            }
+        }
+        (Tr::L(obs), oracle, observed)
+    });
+    drop(rt);
+    out.hist(&format!("{}.steps", kind), steps.len());
+    out.push(Case {
+        kind: kind.into(),
+        input: json!({"process": steps.iter().map(|x| x.text()).collect::<Vec<_>>(), "observed": observed}),
+        model: format!("obs_cli_history [CA1] Https (Some DExample) [{}]", steps.iter().map(|x| x.coq()).collect::<Vec<_>>().join("; ")),
+        impl_obs: obs,
+        oracle,
+        nontrivial: true,
+    });
+}
+
+fn three_clients() -> Vec<CliCfg> {
+    let with_id = |c: u8| { let mut x = CliCfg::right(); x.ident = Some(IdSpec::good(c)); x };
+    vec![CliCfg::right(), with_id(3), with_id(2)]
+}
+/// every client against every server built so far
+fn sweep(n_servers: usize) -> Vec<SStep> {
+    let mut v = vec![];
+    for k in 0..n_servers {
+        for c in three_clients() {
+            v.push(SStep::Call { srv: k, cli: c });
+        }
+    }
+    v
+}
+
+fn derived_config_corpus(out: &mut Out, pki: &Pki) {
+    use SStep::*;
+    let id = |c: u8| SSet::Ident(IdSpec::good(c));
+    let ca = |v: Vec<Sec>| SSet::ClientCa(Blob(v));
+    let anon = CliCfg::right();
+    let base = vec![New(0), Set { dst: 0, src: 0, op: id(0), clone: false }];
+    // (name of the derivation, setter calls that make the second value out of the base, does the base itself carry a client CA)
+    let derivations: Vec<(&str, Vec<SSet>, Option<Vec<Sec>>)> = vec![
+        ("lax base, then client_ca_root(CA2)", vec![ca(vec![Sec::Ca2])], None),
+        ("lax base, then client_ca_root(CA2).client_auth_optional(true)", vec![ca(vec![Sec::Ca2]), SSet::Optional(true)], None),
+        ("lax base, then client_ca_root(CA1+CA2 bundle)", vec![ca(vec![Sec::Ca1, Sec::Ca2])], None),
+        ("strict base (CA2), then client_ca_root(CA1)", vec![ca(vec![Sec::Ca1])], Some(vec![Sec::Ca2])),
+        ("strict base (CA2), then client_auth_optional(true)", vec![SSet::Optional(true)], Some(vec![Sec::Ca2])),
+        ("strict base (CA2), then another identity", vec![id(1)], Some(vec![Sec::Ca2])),
+        ("lax base, then another identity", vec![id(1)], None),
+    ];
+    for (_name, ops, base_ca) in &derivations {
+        let mut pre = base.clone();
+        if let Some(b) = base_ca {
+            pre.push(Set { dst: 0, src: 0, op: ca(b.clone()), clone: false });
+        }
+        let derive = |clone: bool| -> Vec<SStep> {
+            let mut v = vec![];
+            for (j, op) in ops.iter().enumerate() {
+                v.push(Set { dst: 1, src: if j == 0 { 0 } else { 1 }, op: op.clone(), clone: if j == 0 { clone } else { false } });
+            }
+            v
+        };
+        // A from base.clone(), USED, then B derived from the base itself (moved) and used
+        let mut h = pre.clone();
+        h.push(Build { src: 0, clone: true });
+        h.extend(sweep(1));
+        h.extend(derive(false));
+        h.push(Build { src: 1, clone: false });
+        h.extend(sweep(2));
+        run_srv_history(out, pki, "sequence.derived_config.server", &h);
+        // the same with base.clone() for the derivation, and the base used once more at the end
+        let mut h = pre.clone();
+        h.push(Build { src: 0, clone: true });
+        h.push(Call { srv: 0, cli: anon.clone() });
+        h.extend(derive(true));
+        h.push(Build { src: 1, clone: true });
+        h.extend(sweep(2));
+        h.push(Build { src: 0, clone: false });
+        h.extend(sweep(3));
+        run_srv_history(out, pki, "sequence.derived_config.server", &h);
+        // the other order: the derived value is built and used FIRST, the base afterwards
+        let mut h = pre.clone();
+        h.extend(derive(true));
+        h.push(Build { src: 1, clone: false });
+        h.extend(sweep(1));
+        h.push(Build { src: 0, clone: true });
+        h.extend(sweep(2));
+        run_srv_history(out, pki, "sequence.derived_config.server", &h);
+        // both values made before anything is built; built and used in alternation
+        let mut h = pre.clone();
+        h.extend(derive(true));
+        h.push(Build { src: 0, clone: true });
+        h.push(Build { src: 1, clone: true });
+        h.extend(sweep(2));
+        h.push(Build { src: 1, clone: false });
+        h.push(Build { src: 0, clone: false });
+        h.extend(sweep(4));
+        run_srv_history(out, pki, "sequence.derived_config.server", &h);
+    }
+    // the same value for two servers (strict), used in alternation
+    {
+        let mut h = base.clone();
+        h.push(Set { dst: 0, src: 0, op: ca(vec![Sec::Ca2]), clone: false });
+        h.push(Build { src: 0, clone: true });
+        h.extend(sweep(1));
+        h.push(Build { src: 0, clone: true });
+        h.extend(sweep(2));
+        h.push(Build { src: 0, clone: false });
+        h.extend(sweep(3));
+        run_srv_history(out, pki, "sequence.derived_config.server", &h);
+    }
+
+    // ---- client side
+    use CStep as C;
+    let cca = |v: Vec<Sec>| CSetOp::Ca(Blob(v));
+    let all_calls = |n_eps: usize| -> Vec<CStep> { (0..n_eps).flat_map(|e| (0..3).map(move |s| C::Call { ep: e, srv: s })).collect() };
+    // (setters of the base, setters that make the derived value)
+    let cases: Vec<(Vec<CSetOp>, Vec<CSetOp>)> = vec![
+        (vec![cca(vec![Sec::Ca2])], vec![cca(vec![Sec::Ca1])]),                          // wrong root first, right root added later
+        (vec![cca(vec![Sec::Ca1])], vec![cca(vec![Sec::Ca2])]),
+        (vec![cca(vec![Sec::Ca1])], vec![CSetOp::Domain("other.test")]),
+        (vec![cca(vec![Sec::Ca1]), CSetOp::Domain("other.test")], vec![CSetOp::Domain("example.test")]),
+        (vec![cca(vec![Sec::Ca1])], vec![CSetOp::Ident(IdSpec::good(2))]),              // no identity, then the admitted identity
+        (vec![cca(vec![Sec::Ca1]), CSetOp::Ident(IdSpec::good(2))], vec![CSetOp::Ident(IdSpec::good(3))]),
+        (vec![], vec![cca(vec![Sec::Ca1])]),
+    ];
+    for (b, d) in &cases {
+        let mut pre = vec![C::New(0)];
+        for op in b {
+            pre.push(C::Set { dst: 0, src: 0, op: op.clone(), clone: false });
+        }
+        let derive = |clone: bool| -> Vec<CStep> {
+            d.iter().enumerate().map(|(j, op)| C::Set { dst: 1, src: if j == 0 { 0 } else { 1 }, op: op.clone(), clone: if j == 0 { clone } else { false } }).collect()
+        };
+        // base used by endpoint 0 (and called), then the derived value by endpoint 1
+        let mut h = pre.clone();
+        h.push(C::Endpoint { src: 0, clone: true });
+        h.extend(all_calls(1));
+        h.extend(derive(false));
+        h.push(C::Endpoint { src: 1, clone: false });
+        h.extend(all_calls(2));
+        run_cli_history(out, pki, "sequence.derived_config.client", &h);
+        // derived first, base afterwards; then both again from clones
+        let mut h = pre.clone();
+        h.extend(derive(true));
+        h.push(C::Endpoint { src: 1, clone: true });
+        h.extend(all_calls(1));
+        h.push(C::Endpoint { src: 0, clone: true });
+        h.extend(all_calls(2));
+        h.push(C::Endpoint { src: 1, clone: false });
+        h.push(C::Endpoint { src: 0, clone: false });
+        h.extend(all_calls(4));
+        run_cli_history(out, pki, "sequence.derived_config.client", &h);
+    }
+}
+
+/// random well-formed processes
+fn gen_derived_config(out: &mut Out, pki: &Pki, r: &mut Rng, n: usize) {
+    for i in 0..n {
+        if i % 2 == 0 {
+            // ---- server values
+            let mut h = vec![SStep::New(0), SStep::Set { dst: 0, src: 0, op: SSet::Ident(IdSpec::good(0)), clone: false }];
+            let mut live = vec![true, false, false, false];
+            let mut n_servers = 0usize;
+            let steps = r.range(5, 12);
+            for _ in 0..steps {
+                let srcs: Vec<usize> = (0..4).filter(|k| live[*k]).collect();
+                let src = *r.pick(&srcs);
+                match r.below(10) {
+                    0..=3 => {
+                        let op = match r.below(6) {
+                            0 => SSet::ClientCa(Blob(vec![Sec::Ca2])),
+                            1 => SSet::ClientCa(Blob(vec![Sec::Ca1])),
+                            2 => SSet::ClientCa(Blob(vec![Sec::Ca2, Sec::Ca1])),
+                            3 => SSet::Optional(r.chance(1, 2)),
+                            4 => SSet::Ident(IdSpec::good(r.below(2) as u8)),
+                            _ => SSet::ClientCa(Blob(vec![Sec::Junk, Sec::Ca2])),
+                        };
+                        let dst = r.below(4) as usize;
+                        // the last live value is never moved away
+                        let clone = if dst == src { false } else { srcs.len() == 1 || r.chance(2, 3) };
+                        if !clone {
+                            live[src] = false;
+                        }
+                        live[dst] = true;
+                        h.push(SStep::Set { dst, src, op, clone });
+                    }
+                    4..=6 => {
+                        let clone = srcs.len() == 1 || r.chance(3, 4);
+                        if !clone {
+                            live[src] = false;
+                        }
+                        h.push(SStep::Build { src, clone });
+                        n_servers += 1;
+                        // used at once, mostly
+                        if r.chance(3, 4) {
+                            h.push(SStep::Call { srv: n_servers - 1, cli: r.pick(&three_clients()).clone() });
+                        }
+                    }
+                    _ => {
+                        if n_servers > 0 {
+                            h.push(SStep::Call { srv: r.below(n_servers as u64) as usize, cli: r.pick(&three_clients()).clone() });
+                        }
+                    }
+                }
+            }
+            if n_servers == 0 {
+                let src = (0..4).find(|k| live[*k]).unwrap();
+                h.push(SStep::Build { src, clone: true });
+                n_servers = 1;
+            }
+            h.extend(sweep(n_servers));
+            out.hist("sequence.derived_config.gen_server.servers", n_servers);
+            run_srv_history(out, pki, "sequence.derived_config.gen_server", &h);
+        } else {
+            // ---- client values
+            let mut h = vec![CStep::New(0)];
+            let mut live = vec![true, false, false, false];
+            let mut n_eps = 0usize;
+            let steps = r.range(5, 12);
+            for _ in 0..steps {
+                let srcs: Vec<usize> = (0..4).filter(|k| live[*k]).collect();
+                let src = *r.pick(&srcs);
+                match r.below(10) {
+                    0..=4 => {
+                        let op = match r.below(7) {
+                            0 | 1 => CSetOp::Ca(Blob(vec![Sec::Ca1])),
+                            2 => CSetOp::Ca(Blob(vec![Sec::Ca2])),
+                            3 => CSetOp::Domain(*r.pick(&["example.test", "other.test"])),
+                            4 => CSetOp::Ident(IdSpec::good(2)),
+                            5 => CSetOp::Ident(IdSpec::good(3)),
+                            _ => CSetOp::Ca(Blob(vec![Sec::Text, Sec::Ca1, Sec::Junk])),
+                        };
+                        let dst = r.below(4) as usize;
+                        let clone = if dst == src { false } else { srcs.len() == 1 || r.chance(2, 3) };
+                        if !clone {
+                            live[src] = false;
+                        }
+                        live[dst] = true;
+                        h.push(CStep::Set { dst, src, op, clone });
+                    }
+                    5..=7 => {
+                        let clone = srcs.len() == 1 || r.chance(3, 4);
+                        if !clone {
+                            live[src] = false;
+                        }
+                        h.push(CStep::Endpoint { src, clone });
+                        n_eps += 1;
+                        if r.chance(3, 4) {
+                            h.push(CStep::Call { ep: n_eps - 1, srv: r.below(3) as usize });
+                        }
+                    }
+                    _ => {
+                        if n_eps > 0 {
+                            h.push(CStep::Call { ep: r.below(n_eps as u64) as usize, srv: r.below(3) as usize });
+                        }
+                    }
+                }
+            }
+            if n_eps == 0 {
+                let src = (0..4).find(|k| live[*k]).unwrap();
+                h.push(CStep::Endpoint { src, clone: true });
+                n_eps = 1;
+            }
+            for e in 0..n_eps {
+                for s in 0..3 {
+                    h.push(CStep::Call { ep: e, srv: s });
+                }
+            }
+            out.hist("sequence.derived_config.gen_client.endpoints", n_eps);
+            run_cli_history(out, pki, "sequence.derived_config.gen_client", &h);
+        }
+    }
 }
 
 // ================================================================== one listener, several clients
@@ -2873,6 +3394,8 @@ fn main() {
             corpus(&mut out, &pki);
             gen_pem(&mut out, &pki, &mut r.fork(), if a.thorough { 8000 } else { 400 });
             sequences(&mut out, &pki, &mut r.fork(), if a.thorough { 400 } else { 30 });
+            derived_config_corpus(&mut out, &pki);
+            gen_derived_config(&mut out, &pki, &mut r.fork(), if a.thorough { 600 } else { 80 });
         }
         out.finish(IMPORTS, "replay of one stored case", json!({}));
         return;
@@ -2907,6 +3430,9 @@ fn main() {
     // generated configurations (PEM blobs, identities), sequences of clients on one listener
     gen_pem(&mut out, &pki, &mut r.fork(), if a.thorough { 8000 } else { 400 });
     sequences(&mut out, &pki, &mut r.fork(), if a.thorough { 400 } else { 30 });
+    // configuration values cloned / derived from values already in use, in one process
+    derived_config_corpus(&mut out, &pki);
+    gen_derived_config(&mut out, &pki, &mut r.fork(), if a.thorough { 600 } else { 80 });
 
     // the matrix: every cell in both tiers
     let cells = all_cells();
@@ -2956,7 +3482,7 @@ fn main() {
     }
     out.finish(
         IMPORTS,
-        "cell (both tiers: ALL 2592 cells): one real rustls handshake + unary call per cell of client roots{right,other,none} x domain{cfg example.test, cfg other.test, from URI} x URI host{example.test,other.test} x server cert SAN{example.test,other.test} x server ALPN{h2 (tonic's acceptor), none, http/1.1 (rustls acceptor configured like tonic's with the ALPN list replaced)} x assume_http2 x client-auth{none, none+optional flag, required, optional} x identity{none, client CA, other CA}; cell.stub_h2: every ALPN-h2 cell (864) again on the rustls stub with ALPN h2, oracle = same observable as tonic's acceptor; cell.origin: every cell with right roots and the name taken from the URI again with Endpoint::origin naming the other host (before or after tls_config by parity; thorough: both), observable = call + scheme/authority of the request the handler got; cell.tls12 (thorough): every cell on the stub restricted to TLS 1.2; tcp.cell / tcp.cell.lazy / tcp.cell.balance: ALPN-h2 cells over real sockets (Router::serve | serve_with_shutdown | serve_with_incoming(TcpIncoming) x Endpoint::connect | connect_lazy | Channel::balance_list; hosts localhost / 127.0.0.1 with certificates for these names; quick 150 seeded cells, thorough all 864); gen.pem: random client and server configurations (CA blobs = lists of {CA1, CA2, junk DER, undecodable, text, key section}, several blobs, trust anchor, identities with faults {empty chain, junk leaf, undecodable, no key, broken key, foreign key}, domain, client-auth mode, setter calls in random order; 2/3 mostly valid, 1/3 malformed), oracle from the pieces the configuration was assembled from; sequence / sequence.stalled: 3-6 clients {admitted, no identity, other CA, plaintext, https without TLS config, client that rejects the server} one after the other on ONE tonic TLS listener (stalled: a silent open connection before each), per client the observable of the client alone; corpus.pem.*: fixed CA blobs / identities on both sides; corpus.tls_config_twice, corpus.server_tls_config_twice: the last call decides; corpus.uds; observe.raw_channel (not judged); corpus.resumption: 1-4 tonic TLS servers {no client auth, CA2 required, CA2 optional, CA1 required} in one process, one shared rustls ClientConfig (session cache; TLS 1.3 tickets / TLS 1.2 session ids) x identity{none, CA2, CA1}, visited in every order of pairs (incl. back and forth, same server twice) and triples and one 8-visit tour; oracle per visit independent of history; corpus.origin: origin{none, same, other, http other, both} x order x domain{unset,example,other} x URI host x server SAN; corpus: scheme x tls config x plaintext/TLS server, Endpoint::new x SSL_CERT_FILE, root store composition, native/webpki root flags x SSL_CERT_FILE{CA1,CA2,empty} (build has both root features), Server builder calls (16 setters, layer before/after, all) around tls_config x {http client, https without identity, other-CA identity, valid identity}, invalid domain, connect-info type, server ALPN against bare rustls clients, hand-picked cells on a TLS 1.2-only listener. exhaustive = the property's quantifier (the matrix) is run completely; the generated kinds are samples. Distinct = distinct (kind, model expression).",
+        "cell (both tiers: ALL 2592 cells): one real rustls handshake + unary call per cell of client roots{right,other,none} x domain{cfg example.test, cfg other.test, from URI} x URI host{example.test,other.test} x server cert SAN{example.test,other.test} x server ALPN{h2 (tonic's acceptor), none, http/1.1 (rustls acceptor configured like tonic's with the ALPN list replaced)} x assume_http2 x client-auth{none, none+optional flag, required, optional} x identity{none, client CA, other CA}; cell.stub_h2: every ALPN-h2 cell (864) again on the rustls stub with ALPN h2, oracle = same observable as tonic's acceptor; cell.origin: every cell with right roots and the name taken from the URI again with Endpoint::origin naming the other host (before or after tls_config by parity; thorough: both), observable = call + scheme/authority of the request the handler got; cell.tls12 (thorough): every cell on the stub restricted to TLS 1.2; tcp.cell / tcp.cell.lazy / tcp.cell.balance: ALPN-h2 cells over real sockets (Router::serve | serve_with_shutdown | serve_with_incoming(TcpIncoming) x Endpoint::connect | connect_lazy | Channel::balance_list; hosts localhost / 127.0.0.1 with certificates for these names; quick 150 seeded cells, thorough all 864); gen.pem: random client and server configurations (CA blobs = lists of {CA1, CA2, junk DER, undecodable, text, key section}, several blobs, trust anchor, identities with faults {empty chain, junk leaf, undecodable, no key, broken key, foreign key}, domain, client-auth mode, setter calls in random order; 2/3 mostly valid, 1/3 malformed), oracle from the pieces the configuration was assembled from; sequence.derived_config.server / .client (fixed) and .gen_server / .gen_client (seeded random): ONE process builds ServerTlsConfig / ClientTlsConfig VALUES step by step - ::new(), setters on a value or on its clone, values derived from values that were already used for a running server / a connected endpoint, one value used for several servers, both build orders (lax first then strict, strict first then lax) - with calls of {anonymous, other-CA, admitted} clients to every server built so far (client side: calls through every endpoint built so far to three fixed servers) in between and a full sweep at the end; every step is executed on the real tonic values and on plain specification structs, oracle per call from the specification of the value the server / endpoint was built from (its own setter calls only); sequence / sequence.stalled: 3-6 clients {admitted, no identity, other CA, plaintext, https without TLS config, client that rejects the server} one after the other on ONE tonic TLS listener (stalled: a silent open connection before each), per client the observable of the client alone; corpus.pem.*: fixed CA blobs / identities on both sides; corpus.tls_config_twice, corpus.server_tls_config_twice: the last call decides; corpus.uds; observe.raw_channel (not judged); corpus.resumption: 1-4 tonic TLS servers {no client auth, CA2 required, CA2 optional, CA1 required} in one process, one shared rustls ClientConfig (session cache; TLS 1.3 tickets / TLS 1.2 session ids) x identity{none, CA2, CA1}, visited in every order of pairs (incl. back and forth, same server twice) and triples and one 8-visit tour; oracle per visit independent of history; corpus.origin: origin{none, same, other, http other, both} x order x domain{unset,example,other} x URI host x server SAN; corpus: scheme x tls config x plaintext/TLS server, Endpoint::new x SSL_CERT_FILE, root store composition, native/webpki root flags x SSL_CERT_FILE{CA1,CA2,empty} (build has both root features), Server builder calls (16 setters, layer before/after, all) around tls_config x {http client, https without identity, other-CA identity, valid identity}, invalid domain, connect-info type, server ALPN against bare rustls clients, hand-picked cells on a TLS 1.2-only listener. exhaustive = the property's quantifier (the matrix) is run completely; the generated kinds are samples. Distinct = distinct (kind, model expression).",
         json!({"matrix_cells_total": total, "matrix_cells_run": n, "exhaustive_matrix": true, "exhaustive": true,
                "cells_on_tonic_acceptor": cells.iter().filter(|c| c.alpn == 0).count(), "stub_cross_validated_cells": n_stub,
                "origin_cells": n_origin, "tls12_cells": n_tls12, "tcp_cells": tcp_cells.len(),
